@@ -264,7 +264,7 @@ theorem pySliceStep_subset {β} (l : List β) (a b : Option Int) (st : Int) :
 
 /-! ### `[::-1]` is the reversed result -/
 
-private theorem takeWhile_all {α} (p : α → Bool) : ∀ (l : List α), (∀ x ∈ l, p x = true) → l.takeWhile p = l
+theorem takeWhile_all {α} (p : α → Bool) : ∀ (l : List α), (∀ x ∈ l, p x = true) → l.takeWhile p = l
   | [], _ => rfl
   | a :: l, h => by
       rw [List.takeWhile_cons_of_pos (h a (List.mem_cons_self ..)), takeWhile_all p l (fun x hx => h x (List.mem_cons_of_mem _ hx))]
@@ -289,7 +289,7 @@ theorem sliceIndices_rev (len : Nat) : sliceIndices len none none (-1) = (List.r
     have : Int.ofNat k = (k : Int) := rfl
     omega
 
-private theorem filterMap_range_getElem? {β} : ∀ (l : List β), (List.range l.length).filterMap (fun i => l[i]?) = l
+theorem filterMap_range_getElem? {β} : ∀ (l : List β), (List.range l.length).filterMap (fun i => l[i]?) = l
   | [] => rfl
   | a :: l => by
       rw [List.length_cons, List.range_succ_eq_map, List.filterMap_cons]
